@@ -86,6 +86,29 @@ def splice(caller, bi, callee, closure_call=False):
     caller["locals"].extend(copy.deepcopy(callee["locals"]))
     blocks = copy.deepcopy(callee["blocks"])
     _renumber(blocks, off_l, off_b)
+    # promoted constants of the callee move with its code
+    if callee.get("promoted"):
+        caller.setdefault("promoted", [])
+        pmap = {}
+        nxt = max([p_["index"] for p_ in caller["promoted"]] + [-1]) + 1
+        for p_ in callee["promoted"]:
+            q = copy.deepcopy(p_)
+            pmap[p_["index"]] = nxt
+            q["index"] = nxt
+            nxt += 1
+            caller["promoted"].append(q)
+
+        def fix(x):
+            if isinstance(x, dict):
+                if x.get("def") == callee["id"] and isinstance(x.get("promoted"), int) and x["promoted"] in pmap:
+                    x["promoted"] = pmap[x["promoted"]]
+                    x["def"] = caller["id"]
+                for v in x.values():
+                    fix(v)
+            elif isinstance(x, list):
+                for v in x:
+                    fix(v)
+        fix(blocks)
     loc = t.get("loc")
     # arguments
     if closure_call:
